@@ -1,5 +1,334 @@
 import FcpptModel.Prelude.Proto
-/-! Driver for C14 — placeholder until the property's model is built. -/
+import FcpptModel.Spec.C14
+/-!
+Driver for C14.  Scalars are integers with `|e| ≤ 1000` (the harness asserts the same bound so that nothing
+overflows `long`); vectors are `a,b,c`; matrices are given as their row-major element list and printed
+row by row (`a,b;c,d`), read through `at_r_c`.  Storage modes: `s` static storage, `b` a view into a larger
+buffer, `r` (vectors only) a row view of a static 3×n matrix.
+
+* `vec K LR n a b k i`   — K ∈ {v,d} (vector / dim), LR two storage modes: every operator of `arithmetic.hpp`, `dot`,
+                           `length_square`, the comparisons, `narrow_cast` to every smaller dimension, `push_back`,
+                           `structure_cast` (two converters), `null`, `fill`, `at<I>`, `x y z w`, `get_unsafe(i)`, copy
+* `cross LR a b`         — `cross`, `dot` with both operands, `cross(b,a)`, Lagrange identity flag
+* `mat LR r c A B k j i` — `+ -`, both scalar products, `transpose`, `== !=`, `structure_cast`, rebuild through `row`s,
+                           `to_array`, `get_unsafe(j).get_unsafe(i)`, `get_unsafe(j)`
+* `mul LR m n p A B`     — `A*B`, `transpose(A*B)`, `transpose(B)*transpose(A)`
+* `mv M V r c A v`       — matrix · vector
+* `sq M n A`             — `determinant` (also of the transpose), `adjugate`, `A*adj`, `adj*A`, `inverse`, `identity`, `det*identity`
+* `del M r c dr dc A`    — `delete_row_and_column<dr, dc>`
+* `pair M n A B`         — `A*B`, `(AB)ᵀ`, `BᵀAᵀ`, `A+B`, `A-B`, `det(AB)`, `det A`, `det B`, `==`
+* `pairs M a`            — digest of the `pair` lines of the 2×2 matrix number `a` with every 2×2 matrix over {-1,0,1,2}
+* `trio M n A B C`       — `(AB)C`, `A(BC)`, `A(B+C)`, `AB+AC`, `(A+B)C`, `AC+BC`
+* `trios M a b`          — digest of the `trio` results of the 2×2 matrices number `a`, `b` with every 2×2 matrix `C`
+* `builders x y z a b d` — `translation`, `scaling` (both overloads), `identity` 1…4, `vector::init`, `matrix::init`, `matrix::row` + row constructor
+* `bits n`               — `bit_strings<long, n>`
+* `det0`                 — determinant of the 0×0 matrix
+-/
 namespace Fcppt.C14.Drv
-def main : IO Unit := Fcppt.Proto.run (fun _ => "not-built")
+open Fcppt.Proto
+
+def bound : Int := 1000
+
+def showL (l : List Int) : String := if l.isEmpty then "-" else intList l
+def showV {n : Nat} (v : Storage n) : String := showL v.toList
+def showM {r c : Nat} (m : Mat r c) : String :=
+  if r = 0 then "-" else ";".intercalate ((List.finRange r).map fun i => showL ((List.finRange c).map fun j => m.atRC i j))
+def showO {α : Type} (f : α → String) : Option α → String
+  | some a => f a
+  | none => "none"
+def showE {α : Type} (f : α → String) : M α → String
+  | .ok a => f a
+  | .error e => e.name
+
+def mkVector (n : Nat) (l : List Int) : Option (Vector Int n) :=
+  if h : l.length = n then some ⟨l.toArray, by simp [h]⟩ else none
+
+def parseInts (s : String) : Option (List Int) :=
+  match parseIntList s with
+  | some l => if l.all (fun e => decide (-bound ≤ e ∧ e ≤ bound)) then some l else none
+  | none => none
+
+def parseScalar (s : String) : Option Int :=
+  match s.toInt? with
+  | some e => if -bound ≤ e ∧ e ≤ bound then some e else none
+  | none => none
+
+def parseDim (lo hi : Nat) (s : String) : Option Nat :=
+  match s.toNat? with
+  | some n => if lo ≤ n ∧ n ≤ hi then some n else none
+  | none => none
+
+/-- the storage of `n` elements `l` in mode `s` / `b` (two junk elements in front, three behind) -/
+def mkStorage (mode : Char) (n : Nat) (l : List Int) : Option (Storage n) :=
+  if mode = 's' then (mkVector n l).map Storage.static
+  else if mode = 'b' then
+    if hl : l.length = n then
+      match mkVector (n + 5) ([101, 102] ++ l ++ [103, 104, 105]) with
+      | some buf => some (Storage.buffer (n + 5) buf 2 (by omega))
+      | none => none
+    else none
+  else none
+
+/-- a vector operand: `s`, `b`, or `r` = row 1 of the static 3×n matrix `[201…; l; 301…]` -/
+def mkVec (mode : Char) (n : Nat) (l : List Int) : Option (Vec n) :=
+  if mode = 'r' then
+    if l.length = n then
+      let junk1 := (List.range n).map fun (k : Nat) => (201 : Int) + Int.ofNat k
+      let junk2 := (List.range n).map fun (k : Nat) => (301 : Int) + Int.ofNat k
+      match mkVector (3 * n) (junk1 ++ l ++ junk2) with
+      | some a => some ((⟨Storage.static a⟩ : Mat 3 n).atR 1)
+      | none => none
+    else none
+  else mkStorage mode n l
+
+def mkMat (mode : Char) (r c : Nat) (l : List Int) : Option (Mat r c) := (mkStorage mode (r * c) l).map Mat.mk
+
+def modeChars (s : String) : Option (Char × Char) :=
+  match s.toList with
+  | [a, b] => some (a, b)
+  | _ => none
+
+def modeChar (s : String) : Option Char :=
+  match s.toList with
+  | [a] => some a
+  | _ => none
+
+/-! ## lines -/
+
+def narrowAll {n : Nat} (a : Vec n) : String :=
+  let parts := (List.range n).filterMap fun m =>
+    if h : 1 ≤ m ∧ m < n then some (showV (narrowCast h.2 a)) else none
+  if parts.isEmpty then "-" else "|".intercalate parts
+
+def xyzw {n : Nat} (a : Vec n) : String :=
+  showL ((if h : 0 < n then [x a h] else []) ++ (if h : 1 < n then [y a h] else []) ++
+         (if h : 2 < n then [z a h] else []) ++ (if h : 3 < n then [w a h] else []))
+
+def conv2 (e : Int) : Int := 2 * e + 1
+
+def vecLine (isVec : Bool) {n : Nat} (a b : Vec n) (k : Int) (i : Nat) : String :=
+  s!"neg={showV (neg a)} add={showV (add a b)} sub={showV (sub a b)} mul={showV (mul a b)} smr={showV (smulR a k)} sml={showV (smulL k b)} " ++
+  s!"div={showO showV (divV a b)} sdiv={showO showV (divS a k)} " ++
+  (if isVec then s!"dot={dot a b} lsq={lengthSquare b} " else "") ++
+  s!"eq={b01 (arrayEqual a b)} ne={b01 (ne a b)} lt={b01 (arrayLess a b)} gt={b01 (gt a b)} le={b01 (le a b)} ge={b01 (ge a b)} " ++
+  s!"nar={narrowAll a} pb={showV (pushBack a k)} sc={showV (structureCast id b)} sc2={showV (structureCast conv2 b)} " ++
+  s!"null={showV (null n)} fill={showV (fill n k)} at={showL ((List.finRange n).map fun j => atI b j)} " ++
+  (if isVec then s!"xyzw={xyzw a} " else "") ++
+  s!"get={showE toString (getUnsafe a i)} cp={showV (fromArray (toArray a))} nv=1"
+
+def crossLine (a b : Vec 3) : String :=
+  let c := cross a b
+  let lag := lengthSquare c == lengthSquare a * lengthSquare b - dot a b * dot a b
+  s!"c={showV c} dl={dot a c} dr={dot b c} anti={showV (cross b a)} lag={b01 lag}"
+
+def matLine {r c : Nat} (a b : Mat r c) (k : Int) (j i : Nat) : String :=
+  let rebuilt : Mat r c := Mat.ofRows fun rw => fromArray (toArray (a.atR rw))
+  let g : M Int := do
+    let rw ← a.getUnsafe j
+    getUnsafe rw i
+  s!"add={showM (a.add b)} sub={showM (a.sub b)} smr={showM (a.smulR k)} sml={showM (Mat.smulL k b)} tr={showM a.transpose} " ++
+  s!"eq={b01 (a.eq b)} ne={b01 (a.ne b)} sc={showM (b.structureCast id)} sc2={showM (b.structureCast conv2)} rc={showM rebuilt} " ++
+  s!"lin={showV (fromArray (toArray a.s))} get={showE toString g} row={showE showV (a.getUnsafe j)} nv=1"
+
+def mulLine {m n p : Nat} (a : Mat m n) (b : Mat n p) : String :=
+  s!"ab={showM (a.mul b)} tab={showM (a.mul b).transpose} btat={showM (b.transpose.mul a.transpose)} nv=1"
+
+def sqLine {n : Nat} (a : Mat n n) : String :=
+  let d := a.det
+  s!"det={d} dett={a.transpose.det} adj={showM a.adjugate} aadj={showM (a.mul a.adjugate)} adja={showM (a.adjugate.mul a)} " ++
+  s!"inv={showE showM a.inverse} id={showM (Mat.identity n)} detid={showM (Mat.smulL d (Mat.identity n))} nv=1"
+
+def pairLine {n : Nat} (a b : Mat n n) : String :=
+  let ab := a.mul b
+  s!"ab={showM ab} tab={showM ab.transpose} btat={showM (b.transpose.mul a.transpose)} add={showM (a.add b)} sub={showM (a.sub b)} " ++
+  s!"dab={ab.det} da={a.det} db={b.det} eq={b01 (a.eq b)}"
+
+def trioMats {n : Nat} (a b c : Mat n n) : List (Mat n n) :=
+  [(a.mul b).mul c, a.mul (b.mul c), a.mul (b.add c), (a.mul b).add (a.mul c), (a.add b).mul c, (a.mul c).add (b.mul c)]
+
+def trioLine {n : Nat} (a b c : Mat n n) : String :=
+  match trioMats a b c with
+  | [l1, r1, l2, r2, l3, r3] =>
+    s!"l1={showM l1} r1={showM r1} l2={showM l2} r2={showM r2} l3={showM l3} r3={showM r3}"
+  | _ => "internal"
+
+/-- entries of the 2×2 matrix number `a` over {-1,0,1,2}: element `k` (row-major) is digit `k` of `a` in base 4, minus 1 -/
+def decode2 (a : Nat) : List Int := (List.range 4).map fun k => (Int.ofNat ((a / 4 ^ k) % 4)) - 1
+
+def mix (h : UInt64) (x : UInt64) : UInt64 := (h ^^^ x) * 1099511628211
+/-- two's-complement image of a (small) integer in 64 bits -/
+def u64 (x : Int) : UInt64 := if x ≥ 0 then UInt64.ofNat x.toNat else 0 - UInt64.ofNat (-x).toNat
+/-- mixes the entries in row-major order (`at_r_c<i, j>` is storage element `i * c + j`: theorem `atRC_eq_entry`) -/
+def mixMat {r c : Nat} (h : UInt64) (m : Mat r c) : UInt64 :=
+  Fin.foldl (r * c) (fun h k => mix h (u64 (m.s.get k))) h
+
+def pairsDigest (mode : Char) (a : Nat) : String :=
+  match mkMat mode 2 2 (decode2 a) with
+  | some ma =>
+    let h := (List.range 256).foldl (fun h b =>
+      match mkMat mode 2 2 (decode2 b) with
+      | some mb => fnv h (pairLine ma mb)
+      | none => h) fnvInit
+    "D " ++ hex64 h
+  | none => "bad-op"
+
+/-- all 256 matrices in mode `mode`, in index order -/
+def all2 (mode : Char) : List (Mat 2 2) := (List.range 256).filterMap fun c => mkMat mode 2 2 (decode2 c)
+
+/-- `trioMats a b c` with the subterms that do not depend on `c` (and the repeated `b*c`, `a*c`) evaluated once:
+    the model is a pure function, so the six results are the same matrices -/
+def trioMatsShared {n : Nat} (a b ab aPlusB c : Mat n n) : List (Mat n n) :=
+  let bc := b.mul c
+  let ac := a.mul c
+  [ab.mul c, a.mul bc, a.mul (b.add c), ab.add ac, aPlusB.mul c, ac.add bc]
+
+def triosDigest (mode : Char) (a b : Nat) : String :=
+  match mkMat mode 2 2 (decode2 a), mkMat mode 2 2 (decode2 b) with
+  | some ma, some mb =>
+    let ab := ma.mul mb
+    let aPlusB := ma.add mb
+    let h := (all2 mode).foldl (fun h mc => (trioMatsShared ma mb ab aPlusB mc).foldl mixMat h) fnvInit
+    "D " ++ hex64 h
+  | _, _ => "bad-op"
+
+def buildersLine (tx ty tz a b d : Int) : String :=
+  let v3 : Vec 3 := fromArray #v[tx, ty, tz]
+  let vi : Vec 4 := init fun i => a * i.val + b
+  let mi (r c : Nat) : Mat r c := Mat.init fun i j => a * i.val + b * j.val + d
+  let rows23 : Mat 2 3 := Mat.ofRows fun i => match i with
+    | 0 => row #v[tx, ty, tz]
+    | 1 => row #v[a, b, d]
+  s!"tr={showM (Mat.translation tx ty tz)} trv={showM (Mat.translationV v3)} sc={showM (Mat.scaling tx ty tz)} scv={showM (Mat.scalingV v3)} " ++
+  s!"id1={showM (Mat.identity 1)} id2={showM (Mat.identity 2)} id3={showM (Mat.identity 3)} id4={showM (Mat.identity 4)} " ++
+  s!"vi={showV vi} mi23={showM (mi 2 3)} mi32={showM (mi 3 2)} mi34={showM (mi 3 4)} mi41={showM (mi 4 1)} rows={showM rows23}"
+
+def bitsLine (n : Nat) : String :=
+  match n with
+  | 0 => "bad-op"
+  | k + 1 => "|".intercalate ((bitStrings k).map showV)
+
+def isMatMode (c : Char) : Bool := c = 's' || c = 'b'
+
+/-! The shapes and storage-mode combinations the harness instantiates (same tables in `harness/c14.cpp`);
+    every other line is `bad-op` on both sides. -/
+def vecModeOk (isVec : Bool) (n : Nat) (ml mr : Char) : Bool :=
+  let lr := String.ofList [ml, mr]
+  let mixed := n = 2 || n = 3
+  if isVec then lr = "ss" || lr = "rr" || lr = "bb" || (mixed && (lr = "sr" || lr = "rb" || lr = "bs"))
+  else lr = "ss" || lr = "bb" || (mixed && lr = "sb")
+def mat2ModeOk (views : Bool) (ml mr : Char) : Bool :=
+  let lr := String.ofList [ml, mr]
+  lr = "ss" || (views && (lr = "bb" || lr = "sb"))
+def matShape (r c : Nat) : Bool := r = c || [23, 32, 34, 43, 14, 41].contains (r * 10 + c)
+def matViews (r c : Nat) : Bool := [22, 23, 33, 44].contains (r * 10 + c)
+def mulShape (m n p : Nat) : Bool := [111, 222, 333, 444, 232, 323, 234, 342, 141, 414, 123, 431].contains (m * 100 + n * 10 + p)
+def mulViews (m n p : Nat) : Bool := [222, 234, 333].contains (m * 100 + n * 10 + p)
+def mvShape (r c : Nat) : Bool := r = c || [23, 32, 34, 43].contains (r * 10 + c)
+def mvViews (r c : Nat) : Bool := [23, 33, 44].contains (r * 10 + c)
+def delShape (r c : Nat) : Bool := r = c || [23, 32, 34, 43].contains (r * 10 + c)
+def delViews (r c : Nat) : Bool := [33, 34].contains (r * 10 + c)
+def pairViews (n : Nat) : Bool := n = 2 || n = 3
+
+def handle (toks : List String) : String :=
+  match toks with
+  | ["vec", kind, lr, n, a, b, k, i] =>
+    match modeChars lr, parseDim 1 4 n, parseInts a, parseInts b, parseScalar k, i.toNat? with
+    | some (ml, mr), some n, some a, some b, some k, some i =>
+      if (kind = "v" ∨ kind = "d") ∧ vecModeOk (kind = "v") n ml mr then
+        match mkVec ml n a, mkVec mr n b with
+        | some va, some vb => vecLine (kind = "v") va vb k i
+        | _, _ => "bad-op"
+      else "bad-op"
+    | _, _, _, _, _, _ => "bad-op"
+  | ["cross", lr, a, b] =>
+    match modeChars lr, parseInts a, parseInts b with
+    | some (ml, mr), some a, some b =>
+      if vecModeOk true 3 ml mr then
+        match mkVec ml 3 a, mkVec mr 3 b with
+        | some va, some vb => crossLine va vb
+        | _, _ => "bad-op"
+      else "bad-op"
+    | _, _, _ => "bad-op"
+  | ["mat", lr, r, c, a, b, k, j, i] =>
+    match modeChars lr, parseDim 1 4 r, parseDim 1 4 c, parseInts a, parseInts b, parseScalar k, j.toNat?, i.toNat? with
+    | some (ml, mr), some r, some c, some a, some b, some k, some j, some i =>
+      if matShape r c && mat2ModeOk (matViews r c) ml mr then
+        match mkMat ml r c a, mkMat mr r c b with
+        | some ma, some mb => matLine ma mb k j i
+        | _, _ => "bad-op"
+      else "bad-op"
+    | _, _, _, _, _, _, _, _ => "bad-op"
+  | ["mul", lr, m, n, p, a, b] =>
+    match modeChars lr, parseDim 1 4 m, parseDim 1 4 n, parseDim 1 4 p, parseInts a, parseInts b with
+    | some (ml, mr), some m, some n, some p, some a, some b =>
+      if mulShape m n p && mat2ModeOk (mulViews m n p) ml mr then
+        match mkMat ml m n a, mkMat mr n p b with
+        | some ma, some mb => mulLine ma mb
+        | _, _ => "bad-op"
+      else "bad-op"
+    | _, _, _, _, _, _ => "bad-op"
+  | ["mv", mm, vm, r, c, a, v] =>
+    match modeChar mm, modeChar vm, parseDim 1 4 r, parseDim 1 4 c, parseInts a, parseInts v with
+    | some mm, some vm, some r, some c, some a, some v =>
+      if mvShape r c && (mm = 's' || (mm = 'b' && mvViews r c)) && (vm = 's' || ((vm = 'b' || vm = 'r') && mvViews r c)) then
+        match mkMat mm r c a, mkVec vm c v with
+        | some ma, some vv => s!"av={showV (ma.mulVec vv)} nv=1"
+        | _, _ => "bad-op"
+      else "bad-op"
+    | _, _, _, _, _, _ => "bad-op"
+  | ["sq", mm, n, a] =>
+    match modeChar mm, parseDim 1 4 n, parseInts a with
+    | some mm, some n, some a =>
+      match mkMat mm n n a with
+      | some ma => sqLine ma
+      | none => "bad-op"
+    | _, _, _ => "bad-op"
+  | ["del", mm, r, c, dr, dc, a] =>
+    match modeChar mm, parseDim 1 4 r, parseDim 1 4 c, dr.toNat?, dc.toNat?, parseInts a with
+    | some mm, some (r + 1), some (c + 1), some dr, some dc, some a =>
+      if dr ≤ r ∧ dc ≤ c ∧ delShape (r + 1) (c + 1) ∧ (mm = 's' ∨ (mm = 'b' ∧ delViews (r + 1) (c + 1))) then
+        match mkMat mm (r + 1) (c + 1) a with
+        | some ma => showM (ma.deleteRowAndColumn dr dc)
+        | none => "bad-op"
+      else "bad-op"
+    | _, _, _, _, _, _ => "bad-op"
+  | ["pair", mm, n, a, b] =>
+    match modeChar mm, parseDim 1 4 n, parseInts a, parseInts b with
+    | some mm, some n, some a, some b =>
+      if mm = 's' || (mm = 'b' && pairViews n) then
+        match mkMat mm n n a, mkMat mm n n b with
+        | some ma, some mb => pairLine ma mb
+        | _, _ => "bad-op"
+      else "bad-op"
+    | _, _, _, _ => "bad-op"
+  | ["pairs", mm, a] =>
+    match modeChar mm, parseDim 0 255 a with
+    | some mm, some a => if isMatMode mm then pairsDigest mm a else "bad-op"
+    | _, _ => "bad-op"
+  | ["trio", mm, n, a, b, c] =>
+    match modeChar mm, parseDim 1 4 n, parseInts a, parseInts b, parseInts c with
+    | some mm, some n, some a, some b, some c =>
+      if mm = 's' || (mm = 'b' && pairViews n) then
+        match mkMat mm n n a, mkMat mm n n b, mkMat mm n n c with
+        | some ma, some mb, some mc => trioLine ma mb mc
+        | _, _, _ => "bad-op"
+      else "bad-op"
+    | _, _, _, _, _ => "bad-op"
+  | ["trios", mm, a, b] =>
+    match modeChar mm, parseDim 0 255 a, parseDim 0 255 b with
+    | some mm, some a, some b => if isMatMode mm then triosDigest mm a b else "bad-op"
+    | _, _, _ => "bad-op"
+  | ["builders", tx, ty, tz, a, b, d] =>
+    match parseScalar tx, parseScalar ty, parseScalar tz, parseScalar a, parseScalar b, parseScalar d with
+    | some tx, some ty, some tz, some a, some b, some d => buildersLine tx ty tz a b d
+    | _, _, _, _, _, _ => "bad-op"
+  | ["bits", n] =>
+    match parseDim 1 5 n with
+    | some n => bitsLine n
+    | none => "bad-op"
+  | ["det0"] => toString (Mat.det (⟨fromArray #v[]⟩ : Mat 0 0))
+  | _ => "bad-op"
+
+def main : IO Unit := Proto.run handle
+
 end Fcppt.C14.Drv
